@@ -18,6 +18,11 @@
                 the OS buffer
     dropAll     `drop_all`: read and discard until `Gen.SerialIntf.dropAllPolls` reads came back empty
   and for the other end: `peerSend d`, `peerRecv` (takes everything that has arrived).
+
+  The FIFO abstraction stands for a UART line only when the port is opened 8-bit transparent and without
+  flow control; `Line` (below) records how `SerialDevice.__init__` opens the port (`Line.real`, from the
+  translator) and what a line so configured does to one byte (`Line.carry`) and to a pending write
+  (`Line.mayHoldWrites`, `writeAccepted`).
   Core Lean only; executable.
 -/
 import NxsModel.Pad
@@ -39,6 +44,54 @@ def Port.real : Port := ⟨Gen.SerialIntf.readCount, Gen.SerialIntf.dropAllPolls
 structure Port.Lawful (pt : Port) : Prop where
   le : ∀ w, pt.readCount w ≤ w
   pos : ∀ w, 0 < w → 0 < pt.readCount w
+
+/-! ### how the port is opened -/
+
+/-- the line settings `serial.Serial(…)` is called with -/
+structure Line where
+  /-- `bytesize` -/
+  dataBits : Nat
+  /-- `parity`: "N" none, "E" even, "O" odd, "M" mark, "S" space -/
+  parity : String
+  /-- `stopbits` -/
+  stopBits : Nat
+  /-- software flow control (IXON | IXOFF) -/
+  xonxoff : Bool
+  /-- RTS/CTS hardware flow control (CRTSCTS) -/
+  rtscts : Bool
+  /-- DSR/DTR hardware flow control -/
+  dsrdtr : Bool
+  deriving DecidableEq, Repr
+
+/-- what a `SerialDevice(port)` built with its default arguments asks of pyserial, as the translator read
+    it from `SerialDevice.__init__` (settings the call does not pass are pyserial's defaults) -/
+def Line.real : Line :=
+  ⟨Gen.SerialIntf.openDataBits, Gen.SerialIntf.openParity, Gen.SerialIntf.openStopBits,
+   Gen.SerialIntf.openXonXoff, Gen.SerialIntf.openRtsCts, Gen.SerialIntf.openDsrDtr⟩
+
+/-- 8N1, no flow control of any kind -/
+def Line.is8N1 (l : Line) : Bool :=
+  l.dataBits == 8 && l.parity == "N" && l.stopBits == 1 && !l.xonxoff && !l.rtscts && !l.dsrdtr
+
+/-- what the line does to one byte value `b < 256` handed to it: with software flow control the tty layer
+    consumes XON (0x11) and XOFF (0x13) instead of delivering them; a character has only `dataBits` bits on
+    the wire, the rest is cut off -/
+def Line.carry (l : Line) (b : Nat) : Option Nat :=
+  if l.xonxoff && (b == 0x11 || b == 0x13) then none else some (b % 2 ^ l.dataBits)
+
+/-- can something other than the sender keep written bytes from moving (the other end dropping CTS / DSR,
+    or sending XOFF)?  Then a write can sit in the OS buffer until the write timeout. -/
+def Line.mayHoldWrites (l : Line) : Bool := l.xonxoff || l.rtscts || l.dsrdtr
+
+/-- pyserial's `write(d)` with `write_timeout = t` (tenths of a second; `none` = wait for ever): how many of
+    the `n` bytes are handed to the OS before it gives up, when the OS transmit buffer has `room` free bytes
+    at the call and the line takes `rate` bytes per tenth of a second out of it
+    (`t = some 0`: one non-blocking `os.write`, the rest is silently dropped; `t = some (k+1)`: everything
+    that fits within the time, then `SerialTimeoutException` if something is left) -/
+def writeAccepted (room rate : Nat) (t : Option Nat) (n : Nat) : Nat :=
+  match t with
+  | none => n
+  | some t => min n (room + rate * t)
 
 structure State where
   /-- `_write_padding` -/
